@@ -7,8 +7,11 @@ Correspondence (implementation vs extracted Coq model, same input):
   * hooks parse_formula_value, parse_dimensions, records (framing with CONTINUE runs);
   * generated .xls files (tools/xlsgen.py) through Xls::new + worksheet_range under every encoding
     variation (NUMBER vs every RK form vs MULRK grouping, DIMENSIONS variants, ignorable
-    records, 8/16-bit strings, formula cached values + STRING), the model reading the very
-    same substream bytes; plus malformed substreams (truncation, unsorted rows, bad DIMENSIONS).
+    records, 8/16-bit strings, formula cached values + STRING, SHRFMLA / ARRAY / TABLE / other
+    ignored records between FORMULA and STRING, STRING continued in CONTINUE records, INDEX / ROW /
+    DBCELL / BLANK / MULBLANK around the row blocks, both DIMENSIONS widths), the model reading the
+    very same substream bytes; the same substreams through the RecordIter hook; plus malformed
+    substreams (truncation, unsorted rows, bad DIMENSIONS, stray / missing STRING records).
 Search oracle (implementation vs specification): an independent Python reading of the property
 (exact rational RK values, IEEE division for x/100, bounding box + dictionary), and the Coq
 spec range_of (logical c) printed by the model driver; the Coq encoder's bytes must equal
@@ -25,8 +28,10 @@ ASSUMPTIONS = [
     "x / 100.0 is the Section variable fdiv100 of the Coq model, instantiated in the OCaml driver by hardware IEEE-754 division (RKFloat.v relates it to Flocq's b64_div)",
     "UTF-16LE decoding is the Section variable decode16 (string decoding is C12/C19); instantiated by a UTF-16 decoder with U+FFFD replacement",
     "the formula token stream (r.data[20..], parse_formula) is opaque to the model: generated formulas use a valid rgce; a panic inside parse_formula on a malformed rgce is C14/C06 material",
-    "cell records are in non-decreasing row order (Range::from_sparse precondition; Excel writes row blocks in order); out-of-order records are exercised only as malformed input (model = implementation = panic)",
+    "cell records are in non-decreasing row order in the theorems (the proofs use C05's specification of the pre-3140dd1 Range::from_sparse; Excel writes row blocks in order); out-of-order records are exercised as malformed input against the model of the current from_sparse (model = implementation, all cells kept)",
     "allocation (cells.reserve from DIMENSIONS, the dense range) is not modelled; generated bounding boxes stay below 2^18 cells",
+    "records between a FORMULA and its STRING are of types the sheet loop ignores (SHRFMLA, ARRAY, TABLE, any non-interpreted type); an ARRAY / SHRFMLA body itself continued in CONTINUE records is not in the layout type (the framing of such runs is exercised by the recs cases)",
+    "a FormulaValue that announces a string with no STRING record after it is treated as malformed (no value cell; model = implementation), not as a legal layout",
 ]
 TMP = os.path.join(vlib.CACHE, "tmp", "c02")
 ERRS = [0x00, 0x07, 0x0F, 0x17, 0x1D, 0x24, 0x2A, 0x2B]          # cerr order of RK.v
@@ -251,7 +256,7 @@ def expected_cell(c, env):
         ca = c["cached"]
         v = {"num": lambda: wrap("F", ca[1], f, env["d1904"]), "bool": lambda: "B%d" % (1 if ca[1] else 0),
              "err": lambda: "X%d" % ERR_CANON[ca[1]], "blank": lambda: "S",
-             "str": lambda: "S" + units_text(ca[1]).encode("utf-8").hex()}[ca[0]]()
+             "str": lambda: "S" + units_text(list(ca[1]) + [u for fr, _ in c.get("cont", []) for u in fr]).encode("utf-8").hex()}[ca[0]]()
         return [(c["r"], c["c"], v)]
     return []
 
@@ -292,7 +297,7 @@ def gen_cell(rng, env, r, c, kinds=None):
         forms = rk_forms_of(bits)
         d["rk"] = rng.choice(forms) if forms and rng.random() < 0.8 else rng.getrandbits(32)
     elif k == "labelsst":
-        d["isst"] = rng.choice(list(range(len(env["strings"]))) + [len(env["strings"]), 4000000000]) if env["strings"] else rng.choice([0, 5])
+        d["isst"] = rng.choice(list(range(len(env["strings"]))) + [len(env["strings"]), 4000000000, 65536, 65537, 0xFFFF0000]) if env["strings"] else rng.choice([0, 5, 65536])
     elif k == "label":
         u = rand_units(rng)
         d["units"] = u
@@ -502,10 +507,12 @@ def item_text(c):
         ca = c["cached"]
         cs = {"num": lambda: "n:%d" % ca[1], "bool": lambda: "b:%d" % (1 if ca[1] else 0),
               "err": lambda: "e:%d" % ERRS.index(ca[1]), "blank": lambda: "k",
-              "str": lambda: "s:%d:%s" % (1 if ca[2] else 0, units(ca[1]))}[ca[0]]()
+              "str": lambda: "s:%d:%s" % (1 if ca[2] else 0, units(ca[1])) +
+                             "".join(":%d:%s" % (1 if w else 0, units(u)) for u, w in c.get("cont", []))}[ca[0]]()
         rgce = c.get("rgce", xlsgen.PTG_INT_1)
-        return "F %s %s %d %d %s" % (head, cs, c.get("grbit", 0), c.get("chn", 0),
-                                     (struct.pack("<H", len(rgce)) + rgce).hex())
+        between = "|".join("%d:%s" % (t, hx(b)) for t, b in c.get("between", [])) or "-"
+        return "F %s %s %d %d %s %s" % (head, cs, c.get("grbit", 0), c.get("chn", 0),
+                                        (struct.pack("<H", len(rgce)) + rgce).hex(), between)
     if k == "blank":
         return "O %d %s" % (0x0201, struct.pack("<HHH", c["r"], c["c"], c.get("xf", 0)).hex())
     if k == "raw":
@@ -538,6 +545,8 @@ def gen_logical(rng, env, small=False):
             v = ("num", rand_number_bits(rng))
         elif k == "sst":
             v = ("sst", rng.randrange(0, len(env["strings"]) + 1))
+            if rng.random() < 0.12:               # far outside the table (no cell), equal to a valid index mod 2^16
+                v = ("sst", rng.choice([1, 2, 0xFFFF]) * 65536 + v[1])
         elif k == "label":
             v = ("label", rand_units(rng))
         elif k == "bool":
@@ -549,7 +558,48 @@ def gen_logical(rng, env, small=False):
         sheet[p] = (xf, v)
     return sheet
 
-def choose_layout(rng, env, sheet, all_number=False):
+def frag_wide(rng, units):
+    return True if any(u > 255 for u in units) else rng.random() < 0.5
+
+def formula_layout(rng, cell, cont=True):
+    """physical choices for one FORMULA cell (the logical value does not change):
+    records between FORMULA and STRING ([MS-XLS] 2.1.7.20.5: Formula [Array / Table / ShrFmla /
+    SUB] [String *Continue]) and CONTINUE cuts of a string result"""
+    r, c = cell["r"], cell["c"]
+    is_str = cell["cached"][0] == "str"
+    if rng.random() < (0.55 if is_str else 0.25):
+        kind = rng.choice(["shrfmla", "shrfmla", "shrfmla", "array", "array", "table", "other", "multi"])
+        # the reference contains the cell; it need not start there (the first cell written of a
+        # shared formula is usually, not always, the range's top-left corner)
+        rf, cf = max(r - rng.choice([0, 0, 0, 1, 2]), 0), max(c - rng.choice([0, 0, 0, 1]), 0)
+        rl, cl = min(r + rng.choice([0, 1, 3]), 65535), min(c + rng.choice([0, 0, 2]), 255)
+        rg = rng.choice([xlsgen.PTG_INT_1, bytes([0x17, 2, 0, 0x61, 0x62]), bytes([0x1E, 2, 0, 0x1E, 3, 0, 0x03])])
+        other = (rng.choice(IGNORABLE), bytes(rng.getrandbits(8) for _ in range(rng.choice([0, 2, 9]))))
+        cell["between"] = {"shrfmla": [(0x04BC, xlsgen.shrfmla_body(rf, rl, cf, cl, rg))],
+                           "array": [(0x0221, xlsgen.array_body(rf, rl, cf, cl, rg))],
+                           "table": [(0x0236, xlsgen.table_body(rf, rl, cf, cl))],
+                           "other": [other],
+                           "multi": [(0x0221, xlsgen.array_body(rf, rl, cf, cl, rg)), other, (0x0201, struct.pack("<HHH", r, 255, 0))]}[kind]
+        if kind != "other":
+            cell["rgce"] = xlsgen.ptg_exp(rf, cf)
+            cell["grbit"] = 8 if kind == "shrfmla" else cell.get("grbit", 0)
+        cell["_between"] = kind
+    if cont and is_str and rng.random() < 0.12:
+        units = list(cell["cached"][1])
+        ncut = rng.choice([1, 1, 2, 3])
+        if rng.random() < 0.25:
+            cuts = [len(units)] * ncut                  # CONTINUE records holding only their flag byte
+        else:
+            cuts = sorted(rng.randrange(0, len(units) + 1) for _ in range(ncut))
+        parts = [units[a:b] for a, b in zip([0] + cuts, cuts + [len(units)])]
+        cell["cached"] = ("str", parts[0], frag_wide(rng, parts[0]))
+        cell["cont"] = [(p, frag_wide(rng, p)) for p in parts[1:]]
+    return cell
+
+def row_record(r, cf, cl):
+    return {"k": "raw", "typ": 0x0208, "body": struct.pack("<HHHHHHI", r, cf, cl + 1, 255, 0, 0, 0x00000100)}
+
+def choose_layout(rng, env, sheet, all_number=False, cont=True):
     """one legal physical layout of the logical sheet: list of xlsgen cell descriptions in row
     order, numbers as NUMBER or any RK form, RK neighbours grouped into MULRK runs at random"""
     cells = []
@@ -592,19 +642,42 @@ def choose_layout(rng, env, sheet, all_number=False):
                 ca = v[1]
                 if ca[0] == "str":
                     ca = ("str", ca[1], True if any(u > 255 for u in ca[1]) else rng.random() < 0.5)
-                cells.append({"k": "formula", "r": r, "c": c, "xf": xf, "cached": ca,
-                              "rgce": rng.choice([xlsgen.PTG_INT_1, bytes([0x1E, 0x02, 0x00, 0x1E, 0x03, 0x00, 0x03])]),
-                              "grbit": rng.choice([0, 2])})
+                cells.append(formula_layout(rng, {
+                    "k": "formula", "r": r, "c": c, "xf": xf, "cached": ca,
+                    "rgce": rng.choice([xlsgen.PTG_INT_1, bytes([0x1E, 0x02, 0x00, 0x1E, 0x03, 0x00, 0x03])]),
+                    "grbit": rng.choice([0, 2])}, cont))
         flush()
-    # ignorable records anywhere
+    # ignorable records anywhere; with row_blocks the shape Excel writes: INDEX, then per block
+    # the ROW records, the cells, DBCELL
+    row_blocks = rng.random() < 0.4
     out = []
+    if row_blocks and rows:
+        out.append({"k": "raw", "typ": 0x020B, "body": struct.pack("<IIII", 0, rows[0], rows[-1] + 1, 0) +
+                    struct.pack("<I", rng.getrandbits(20))})
+    last_row, block = None, 0
     for c in cells:
+        if row_blocks and c["r"] != last_row:
+            if last_row is not None and (block >= 2 or rng.random() < 0.3):
+                out.append({"k": "raw", "typ": 0x00D7, "body": struct.pack("<I", rng.getrandbits(16)) +
+                            b"".join(struct.pack("<H", rng.getrandbits(12)) for _ in range(block))})
+                block = 0
+            cols = [cc for (rr, cc) in sheet if rr == c["r"]]
+            out.append(row_record(c["r"], min(cols), max(cols)))
+            block += 1
+            last_row = c["r"]
         if rng.random() < 0.15:
             t = rng.choice(IGNORABLE)
             out.append({"k": "raw", "typ": t, "body": bytes(rng.getrandbits(8) for _ in range(rng.choice([0, 4, 16])))})
         if rng.random() < 0.1:
             out.append({"k": "blank", "r": c["r"], "c": rng.randrange(256), "xf": 0})
+        if rng.random() < 0.06:
+            n, cf = rng.choice([2, 3, 5]), rng.randrange(200)
+            out.append({"k": "raw", "typ": 0x00BE, "body": struct.pack("<HH", c["r"], cf) +
+                        b"".join(struct.pack("<H", rng.randrange(3)) for _ in range(n)) + struct.pack("<H", cf + n - 1)})
         out.append(c)
+    if row_blocks and block:
+        out.append({"k": "raw", "typ": 0x00D7, "body": struct.pack("<I", rng.getrandbits(16)) +
+                    b"".join(struct.pack("<H", rng.getrandbits(12)) for _ in range(block))})
     return out
 
 def logical_expected(sheet, env):
@@ -719,19 +792,23 @@ def gen_env(rng):
 
 def dims_choice(rng, cells):
     r = rng.random()
-    if r < 0.5:
+    if r < 0.35:
         return "exact", None
-    if r < 0.65:
+    if r < 0.45:
         return "none", None
-    ps = [p for c in cells for p in xlsgen.cell_positions(c)]
-    if r < 0.8 or not ps:
+    ps = [p for c in cells for p in xlsgen.cell_positions(c) if c["k"] != "blank"]
+    if r < 0.55 or not ps:
+        if rng.random() < 0.5:
+            return ("narrow", 0, 0, 0, 0), "D 0 0 0 0 0"
         return (0, 0, 0, 0), "D 1 0 0 0 0"
     rf, rl = min(p[0] for p in ps), max(p[0] for p in ps) + 1
     cf, cl = min(p[1] for p in ps), max(p[1] for p in ps) + 1
-    if r < 0.9 and rl <= 65535:
+    if r < 0.75 and rl <= 65535:           # the 10-byte form (rows as u16), exact
         return ("narrow", rf, rl, cf, cl), "D 0 %d %d %d %d" % (rf, rl, cf, cl)
-    # declared larger than used (legal; only a reservation hint)
+    # declared larger than used (legal; only a reservation hint), either width
     rl2, cl2 = min(rl + rng.choice([0, 3]), 65536), min(cl + rng.choice([0, 2]), 256)
+    if rl2 <= 65535 and rng.random() < 0.5:
+        return ("narrow", rf, rl2, cf, cl2), "D 0 %d %d %d %d" % (rf, rl2, cf, cl2)
     return (rf, rl2, cf, cl2), "D 1 %d %d %d %d" % (rf, rl2, cf, cl2)
 
 def run_files(ctx, n_files, tag):
@@ -787,13 +864,22 @@ def run_files(ctx, n_files, tag):
             meta.append((lid, env, logical, cells, sub, bool(merges)))
     model = ctx.run_model(enc_lines)
     impl = ctx.run_impl(file_lines)
+    run_sheet_records(ctx, meta, tag)
     for n, (lid, env, logical, cells, sub, raw) in enumerate(meta):
         i, m = impl.get(lid), model.get(lid)
         ctx.traces += 1
         exp = logical_expected(logical, env)
         for c in cells:
             ctx.count("file:" + c["k"])
+            if c["k"] == "raw":
+                ctx.count("file:raw:0x%04x" % c["typ"] if c["typ"] in (0x0208, 0x00D7, 0x020B, 0x00BE) else "file:raw:other")
+            if c["k"] == "formula":
+                res = "string" if c["cached"][0] == "str" else "value"
+                ctx.count("layout:formula-%s:%s" % (res, "between-" + c["_between"] if c.get("between") else "adjacent"))
+                if c.get("cont"):
+                    ctx.count("layout:string-continue:" + ("chars" if any(u for u, _ in c["cont"]) else "flag-only"))
         ctx.count("file:sheets")
+        known_here = any(c["k"] == "formula" and any(u for u, _ in c.get("cont", [])) for c in cells)
         if raw:
             mm, spec_coq = m, None
         else:
@@ -810,14 +896,24 @@ def run_files(ctx, n_files, tag):
             if wf != "1" or srt != "1":
                 ctx.disagreements.append({"function": "legal(generator)", "case": enc_lines[n][:600], "impl": i, "model": m[:200]})
                 continue
-            if known != "-":
-                ctx.known_hits["class%s" % known] = enc_lines[n][:600]
+            if (known != "-") != known_here or known not in ("-", "1"):
+                ctx.disagreements.append({"function": "known_C02(generator vs Coq)", "case": enc_lines[n][:600],
+                                          "impl": str(known_here), "model": known})
                 continue
             why = check_range_against(exp, spec_coq)
             if why:
                 ctx.disagreements.append({"function": "spec(Coq range_of vs oracle): " + why, "case": enc_lines[n][:600],
                                           "impl": i, "model": spec_coq[:300]})
                 continue
+        if known_here:
+            # known class StringContinue: the reader keeps the STRING record's own characters.
+            # Everything else in the sheet is still held to the property.
+            ctx.count("known:StringContinue")
+            if check_range_against(exp, i) is not None:
+                ctx.known_hits["StringContinue"] = file_lines[n] + "\t#items: " + enc_lines[n][:600]
+                for c in cells:
+                    if c["k"] == "formula" and any(u for u, _ in c.get("cont", [])):
+                        exp[(c["r"], c["c"])] = ("val", "S" + units_text(c["cached"][1]).encode("utf-8").hex())
         why = check_range_against(exp, i)
         if why:
             ctx.violations.append({"case": file_lines[n] + "\t#items: " + enc_lines[n][:1500], "expected": spec_coq or str(sorted(exp.items()))[:600],
@@ -831,6 +927,23 @@ def run_files(ctx, n_files, tag):
             ctx.nontrivial(sub.hex())
         if n < 2:
             ctx.sample({"file_case": enc_lines[n][:300], "impl": (i or "")[:200]})
+
+def run_sheet_records(ctx, meta, tag):
+    """the generated substreams through the RecordIter hook (framing of FORMULA / between / STRING /
+    CONTINUE runs as the sheet loop sees them) against the model's all_records"""
+    if not ctx.hooks:
+        return
+    lines = ["%sr_%s\tbiffrec\trecs\t%s" % (tag, lid, hx(sub)) for (lid, env, logical, cells, sub, raw) in meta]
+    model = ctx.run_model(lines)
+    send = [l for l in lines if (model.get(l.split("\t", 1)[0]) or "").startswith("ok")]
+    impl = ctx.run_impl(send)
+    for l in send:
+        lid = l.split("\t", 1)[0]
+        ctx.traces += 1
+        ctx.count("recs:sheet-substream")
+        if impl.get(lid) != model.get(lid):
+            ctx.disagreements.append({"function": "recs(sheet substream)", "case": l[:1500],
+                                      "impl": (impl.get(lid) or "")[:400], "model": (model.get(lid) or "")[:400]})
 
 def same_range(a, b):
     if a == b:
@@ -851,7 +964,7 @@ def run_equiv(ctx, n, tag):
         env = gen_env(rng)
         logical = gen_logical(rng, env)
         for v, alln in (("a", True), ("b", False), ("c", False)):
-            cells = choose_layout(rng, env, logical, all_number=alln)
+            cells = choose_layout(rng, env, logical, all_number=alln, cont=False)   # not the known class
             wb = wb_for(env, [{"name": "S", "cells": cells}])
             path = os.path.join(TMP, "%s%d%s.xls" % (tag, k, v))
             with open(path, "wb") as f:
@@ -904,7 +1017,8 @@ def run_malformed_files(ctx, n, tag):
         recs = []
         for c in cells:
             recs += xlsgen.cell_records(c)
-        kind = rng.choice(["truncate", "unsorted", "dims", "continue", "noeof", "garbage", "mergecells", "dup", "formula-short"])
+        kind = rng.choice(["truncate", "unsorted", "dims", "continue", "noeof", "garbage", "mergecells", "dup", "formula-short",
+                           "string-absent", "stray-string", "string-after-two-formulas"])
         pre = []
         if kind == "unsorted" and len(recs) > 1:
             rng.shuffle(recs)
@@ -928,10 +1042,28 @@ def run_malformed_files(ctx, n, tag):
             recs.append((0xE5, body if rng.random() < 0.8 else body[:rng.randrange(len(body) + 1)]))
         elif kind == "dup" and recs:
             recs.append(rng.choice(recs))
+        elif kind in ("string-absent", "string-after-two-formulas"):
+            # FormulaValue says "string" but no STRING follows (no cell; the position stays pending);
+            # in the second form a numeric FORMULA comes next and then one STRING: it lands there
+            r = max([0] + [p[0] for p in logical])
+            recs += xlsgen.cell_records({"k": "formula", "r": r, "c": rng.randrange(0, 8), "cached": ("str", [0x61], False),
+                                         "no_string": True, "between": rng.choice([[], [(0x04BC, xlsgen.shrfmla_body(r, r, 0, 0))]])})
+            if kind == "string-after-two-formulas":
+                recs += xlsgen.cell_records({"k": "formula", "r": r, "c": rng.randrange(0, 8), "cached": rng.choice([("num", f64_bits(2.5)), ("bool", True)])})
+                recs.append((0x0207, xlsgen.xl_unicode([0x7A, 0x7A], rng.random() < 0.5)))
+            elif rng.random() < 0.5:
+                recs += xlsgen.cell_records({"k": "bool", "r": r, "c": 9, "v": True})
+        elif kind == "stray-string":
+            # a STRING record with no string FORMULA before it: goes to the last FORMULA's cell, or (0, 0)
+            pos = rng.randrange(len(recs) + 1)
+            recs[pos:pos] = [(0x0207, xlsgen.xl_unicode(rand_units(rng, 5, False), False))]
+            if rng.random() < 0.3:
+                recs[pos + 1:pos + 1] = [(0x003C, bytes([0, 0x62]))]
         elif kind == "formula-short":
-            # below 20 bytes: Err.  (20 or 21 bytes reach parse_formula with fewer than the two
-            # bytes of cce and panic there: parse_formula is outside this model — C14/C06.)
-            recs.append((0x6, bytes(rng.choice([0, 5, 19])) if rng.random() < 0.7 else bytes(22)))
+            # below 20 bytes: Err.  20 or 21 bytes reach parse_formula with fewer than the two bytes
+            # of cce: an Err there since the C06 hardening (it panicked), turned into the formula text;
+            # the value cell is read normally
+            recs.append((0x6, bytes(rng.choice([0, 5, 19, 20, 21])) if rng.random() < 0.7 else bytes(22)))
         body = xlsgen.bof(0x10) + b"".join(xlsgen.rec(t, b) for t, b in pre + recs)
         if kind not in ("noeof",):
             body += xlsgen.rec(0x0A)
@@ -979,7 +1111,38 @@ CORPUS_FILES = [
     ("bom-strings", [{"k": "label", "r": 0, "c": 0, "units": [0xFEFF, 0x41], "wide": True},
                      {"k": "formula", "r": 0, "c": 1, "cached": ("str", [0xFFFE, 0x42], True)}]),
     ("empty-sheet", []),
+    # FORMULA, SHRFMLA, STRING (first cell of a filled-down shared text formula); FORMULA, STRING (second
+    # cell); FORMULA, ARRAY, STRING (array anchor returning text); FORMULA (number), TABLE; FORMULA, ARRAY,
+    # DBCELL, BLANK, STRING
+    ("shared-formula", [
+        {"k": "formula", "r": 2, "c": 0, "cached": ("str", xlsgen.units_of("shared-a"), False), "rgce": xlsgen.ptg_exp(2, 0), "grbit": 8,
+         "between": [(0x04BC, xlsgen.shrfmla_body(2, 3, 0, 0, bytes([0x17, 1, 0, 0x61])))]},
+        {"k": "formula", "r": 3, "c": 0, "cached": ("str", xlsgen.units_of("shared-b"), False), "rgce": xlsgen.ptg_exp(2, 0), "grbit": 8},
+        {"k": "formula", "r": 4, "c": 2, "cached": ("str", xlsgen.units_of("array"), False), "rgce": xlsgen.ptg_exp(4, 2),
+         "between": [(0x0221, xlsgen.array_body(4, 4, 2, 2))]},
+        {"k": "formula", "r": 5, "c": 1, "cached": ("num", f64_bits(3.0)), "rgce": xlsgen.ptg_exp(5, 1),
+         "between": [(0x0236, xlsgen.table_body(5, 6, 1, 2))]},
+        {"k": "formula", "r": 6, "c": 3, "cached": ("str", [0x20AC], True), "rgce": xlsgen.ptg_exp(6, 3),
+         "between": [(0x0221, xlsgen.array_body(6, 6, 3, 3)), (0x00D7, bytes(6)), (0x0201, struct.pack("<HHH", 6, 2, 0))]}]),
+    ("row-blocks", [
+        {"k": "raw", "typ": 0x020B, "body": struct.pack("<IIIII", 0, 1, 3, 0, 1234)},
+        {"k": "raw", "typ": 0x0208, "body": struct.pack("<HHHHHHI", 1, 0, 4, 255, 0, 0, 0x100)},
+        {"k": "raw", "typ": 0x0208, "body": struct.pack("<HHHHHHI", 2, 1, 6, 255, 0, 0, 0x100)},
+        {"k": "number", "r": 1, "c": 0, "bits": f64_bits(1.5)},
+        {"k": "raw", "typ": 0x00BE, "body": struct.pack("<HHHHHH", 1, 1, 0, 0, 0, 3)},
+        {"k": "rk", "r": 2, "c": 1, "rk": rk_int(42)}, {"k": "blank", "r": 2, "c": 2},
+        {"k": "mulrk", "r": 2, "c": 3, "rks": [(0, rk_int(1)), (0, rk_int(250, True))]},
+        {"k": "raw", "typ": 0x00D7, "body": struct.pack("<IHH", 100, 20, 30)}]),
+    # CONTINUE records holding only their flag byte: nothing is lost
+    ("string-continue-flag-only", [{"k": "formula", "r": 1, "c": 1, "cached": ("str", [0x61, 0x62], False), "cont": [([], False), ([], True)]}]),
+    # known class StringContinue: "ab" in STRING, "c€" in CONTINUE
+    ("string-continue", [{"k": "formula", "r": 1, "c": 1, "cached": ("str", [0x61, 0x62], False), "cont": [([0x63, 0x20AC], True)],
+                          "between": [(0x04BC, xlsgen.shrfmla_body(1, 2, 1, 1))], "rgce": xlsgen.ptg_exp(1, 1), "grbit": 8}]),
+    # the same class where the cut is forced: =REPT("x",9000), 8220 characters fill the STRING record
+    ("string-continue-long", [{"k": "formula", "r": 0, "c": 0, "cached": ("str", [0x78] * 8220, False), "cont": [([0x78] * 780, False)]},
+                              {"k": "number", "r": 1, "c": 0, "bits": f64_bits(9000.0)}]),
 ]
+KNOWN_CORPUS = ("string-continue", "string-continue-long")
 
 def run_corpus(ctx):
     os.makedirs(TMP, exist_ok=True)
@@ -994,7 +1157,7 @@ def run_corpus(ctx):
         with open(path, "wb") as f:
             f.write(xlsgen.cfb_wrap([("Workbook", stream)]))
         fm, d, st = env_args(env)
-        ps = [p for c in cells for p in xlsgen.cell_positions(c)]
+        ps = [p for c in cells for p in xlsgen.cell_positions(c) if c["k"] != "blank"]
         dim = "D 1 %d %d %d %d" % ((min(p[0] for p in ps), max(p[0] for p in ps) + 1, min(p[1] for p in ps),
                                     max(p[1] for p in ps) + 1) if ps else (0, 0, 0, 0))
         enc_lines.append("k_%s\tbiffrec\tenc\t%s\t%s\t%s\t-\t%s" % (lab, fm, d, st, ";".join([dim] + [item_text(c) for c in cells])))
@@ -1017,7 +1180,13 @@ def run_corpus(ctx):
             ctx.disagreements.append({"function": "encoder(E vs xlsgen)", "case": enc_lines[n], "impl": sub.hex()[:300], "model": (m or "")[:300]})
             continue
         why = check_range_against(exp, i)
-        if why:
+        if why and f[3] == "1" and lab in KNOWN_CORPUS:
+            ctx.known_hits["StringContinue"] = file_lines[n] + "\t#" + enc_lines[n]
+            if not same_range(i, f[5][6:]):
+                ctx.disagreements.append({"function": "sheet_model", "case": enc_lines[n], "impl": i, "model": m[-400:]})
+        elif (f[3] != "-") != (lab in KNOWN_CORPUS):
+            ctx.disagreements.append({"function": "known_C02(corpus)", "case": enc_lines[n], "impl": lab, "model": f[3]})
+        elif why:
             ctx.violations.append({"case": file_lines[n] + "\t#" + enc_lines[n], "expected": f[4][5:], "actual": i,
                                    "model": f[5][6:], "what": "corpus %s: %s" % (lab, why)})
         elif not same_range(i, f[5][6:]) or f[1] != "1" or f[2] != "1":
@@ -1029,7 +1198,7 @@ def keep_failing_files(ctx, limit=6):
     """generated files named by the first violations / disagreements are copied next to the
     replays (the temp directory is emptied at the end of a run) and the cases re-pointed"""
     import re, shutil
-    dst = os.path.join(vlib.ROOT, "replays", "C02-files")
+    dst = os.path.join(vlib.OUTROOT, "replays", "C02-files")
     kept = 0
     for rec in ctx.violations + ctx.disagreements:
         cases = rec.get("case")
